@@ -67,6 +67,12 @@ void RadioTapWriter::write_option(const RadioTap::option& option) {
             break;
         }
         else if (parser.current_field() == option.option()) {
+            // The buffer may come from a truncated packet: the field starts
+            // inside it (has_fields) but has to end inside it as well
+            const uint8_t* buffer_end = &*buffer_.begin() + buffer_.size();
+            if (option.data_size() > static_cast<size_t>(buffer_end - parser.current_option_ptr())) {
+                throw malformed_packet();
+            }
             memcpy(const_cast<uint8_t*>(parser.current_option_ptr()),
                    option.data_ptr(), option.data_size());
             return;
@@ -79,6 +85,11 @@ void RadioTapWriter::write_option(const RadioTap::option& option) {
         parser.advance_field();
     }
     size_t offset = is_empty ? 0 : candidate_ptr - &*buffer_.begin();
+    // Same here: the last lower field (or the start of the fields) can be past
+    // the end of a truncated buffer
+    if (offset > buffer_.size()) {
+        throw malformed_packet();
+    }
     const RadioTapParser::FieldMetadata& meta = RadioTapParser::RADIOTAP_METADATA[bit];
 
     vector<uint8_t> paddings = build_padding_vector(candidate_ptr, parser);
